@@ -4,7 +4,10 @@ use emmylua_code_analysis::{DiagnosticCode, FileId, load_configs_raw};
 use lsp_types::{Command, Range};
 use serde::{Deserialize, Serialize};
 use serde_json::Value;
+#[cfg(not(emmyluals_emmylua_analyzer_rust_verif))]
 use tokio::sync::RwLock;
+#[cfg(emmyluals_emmylua_analyzer_rust_verif)]
+use crate::verif_lock::RwLock;
 
 use crate::context::{ServerContextSnapshot, WorkspaceManager};
 
